@@ -111,8 +111,10 @@ func (x *Exec) verifyFunction(fn *ssa.Function, con *Contract, ifaceCon *Contrac
 		active = ifaceCon
 	}
 	x.curReveal = nil
+	x.curAssumePre = nil
 	if active != nil {
 		x.curReveal = active.Reveal
+		x.curAssumePre = active.AssumePre
 	}
 	ctx := x.newSpecCtx(st, nil, fn)
 	ctx.bindParams(fn, argT)
@@ -122,6 +124,11 @@ func (x *Exec) verifyFunction(fn *ssa.Function, con *Contract, ifaceCon *Contrac
 		for _, r := range active.Requires {
 			ctx.clause = active.Key + "/requires " + r.Name
 			st.Assume(ctx.boolExpr(r.E, false))
+		}
+	}
+	if active != nil {
+		for _, ln := range active.UseLemmas {
+			st.Assume(x.lemmaFact(ln))
 		}
 	}
 	x.curDecr = nil
@@ -343,4 +350,42 @@ func sortedFuncKeys(m map[string]*ssa.Function) []string {
 	}
 	sort.Strings(ks)
 	return ks
+}
+
+// lemmaFact: forall params. requires ==> ensures, for a lemma that is proved separately (its own obligations)
+func (x *Exec) lemmaFact(name string) *Term {
+	for _, l := range x.cs.Lemmas {
+		if l.Name != name {
+			continue
+		}
+		st := x.initState()
+		c := x.newSpecCtx(st, nil, nil)
+		c.pkgPath, c.noState, c.clause = l.PkgPath, true, "lemma "+l.Name+" (use)"
+		var bs []string
+		for _, p := range l.Params {
+			sort, gt := x.sortOfTypeString(l.PkgPath, p.Type)
+			n := "lm_" + sanitize(p.Name)
+			c.vars[p.Name] = mkT(sort, n, gt)
+			bs = append(bs, fmt.Sprintf("(%s %s)", n, sort))
+		}
+		var rq, en []*Term
+		for _, r := range l.Requires {
+			rq = append(rq, c.boolExpr(r.E, false))
+		}
+		for _, e := range l.Ensures {
+			en = append(en, c.boolExpr(e.E, false))
+		}
+		body := Implies(And(rq...), And(en...))
+		pat := ""
+		if len(l.Triggers) > 0 {
+			var ps []string
+			for _, t := range l.Triggers {
+				ps = append(ps, c.tr(t.E, false).S)
+			}
+			pat = " :pattern (" + strings.Join(ps, " ") + ")"
+			return mk("Bool", "(forall ("+strings.Join(bs, " ")+") (! "+body.S+pat+"))")
+		}
+		return mk("Bool", "(forall ("+strings.Join(bs, " ")+") "+body.S+")")
+	}
+	panic(specErr{"unknown lemma " + name})
 }
